@@ -133,3 +133,100 @@ Section Typing.
     | _ => true
     end.
 End Typing.
+
+(* ---- code with jumps: forward-label semantics of the code emitted for ONE statement ----
+   All labels the lowerer generates are jumped to from earlier positions of the same statement's code.
+   [Exec] executes; [Seek l t] skips forward to label l (RegAlloc/RegFree markers are lexical and are
+   processed in both modes).  Falling off the end while seeking means the jump leaves the statement. *)
+Inductive mode := Exec | Seek (l : label) (t : option Z).
+Inductive fres := RFall (m : mem) | RJump (l : label) (t : option Z) (m : mem).
+
+Definition label_eqb (a b : label) : bool :=
+  match a, b with
+  | LUser x, LUser y => Nat.eqb x y
+  | LGen k1 n1, LGen k2 n2 => Nat.eqb k1 k2 && Nat.eqb n1 n2
+  | _, _ => false
+  end.
+
+Section JumpSem.
+  Variable T : optable.
+  Variable libm : unop -> Z -> Z.
+  Variable lty : nat -> ty.
+
+  Definition truthy (v : value) : outcome bool :=
+    match v with VInt 0 => Ok false | VInt _ => Ok true | _ => Panic P_TYPE end.
+
+  (* one instruction: new memory, new hidden compare register, and whether it jumps *)
+  Definition exec_step (i : tinstr) (m : mem) (cmp : option (value * value))
+    : outcome (mem * option (value * value) * option (label * option Z)) :=
+    match i with
+    | ICondJmp op _ a b l jt =>
+        do x <- read_arg m a; do y <- read_arg m b; do r <- binop_eval T op x y; do t <- truthy r;
+        Ok (m, cmp, if t then Some (l, jt) else None)
+    | ICmp _ a b => do x <- read_arg m a; do y <- read_arg m b; Ok (m, Some (x, y), None)
+    | ICmpJmp op l jt =>
+        match cmp with
+        | Some (x, y) => do r <- binop_eval T op x y; do t <- truthy r; Ok (m, cmp, if t then Some (l, jt) else None)
+        | None => Panic P_EXPECT
+        end
+    | ICountJmp op x l jt =>
+        do v <- read_arg m x;
+        match v with
+        | VInt n =>
+            let n' := wrap32 (n - 1) in
+            do m' <- write_arg m x (VInt n');
+            let taken := match op with Gt => 0 <? n' | _ => negb (n' =? 0) end in
+            Ok (m', cmp, if taken then Some (l, jt) else None)
+        | _ => Panic P_TYPE
+        end
+    | IJmp l jt => Ok (m, cmp, Some (l, jt))
+    | IInterrupt _ => Ok (m, cmp, None)
+    | ICall _ _ => Panic P_UNIMPL
+    | _ => do m' <- exec_pure T libm i m; Ok (m', cmp, None)
+    end.
+
+  Fixpoint run_fwd (code : list lstmt) (md : mode) (m : mem) (cmp : option (value * value)) : outcome fres :=
+    match code with
+    | [] => Ok (match md with Exec => RFall m | Seek l t => RJump l t m end)
+    | LAlloc d t :: rest => run_fwd rest md (update m (VLoc d) (default_of t)) cmp
+    | LFree d :: rest => run_fwd rest md (update m (VLoc d) (default_of (lty d))) cmp
+    | LLabel _ l' :: rest =>
+        match md with
+        | Seek l t => if label_eqb l l' then run_fwd rest Exec m cmp else run_fwd rest md m cmp
+        | Exec => run_fwd rest Exec m cmp
+        end
+    | LInstr _ _ i :: rest =>
+        match md with
+        | Seek _ _ => run_fwd rest md m cmp
+        | Exec =>
+            match exec_step i m cmp with
+            | Ok (m', cmp', None) => run_fwd rest Exec m' cmp'
+            | Ok (m', cmp', Some (l, t)) => run_fwd rest (Seek l t) m' cmp'
+            | Err e => Err e | Panic p => Panic p | OutOfFuel => OutOfFuel
+            end
+        end
+    end.
+End JumpSem.
+
+(* conditions and ternaries whose leaves are jump-free expressions *)
+Section CondTyping.
+  Variable rty : Z -> ty.
+  Variable lty : nat -> ty.
+
+  Fixpoint wt_cond (te : tenv) (e : expr) : bool :=
+    match e with
+    | EBin a op b =>
+        match op with
+        | LogicAnd | LogicOr => wt_cond te a && wt_cond te b
+        | _ => wt_pure rty lty te e && ty_eqb (ety rty lty te e) TInt
+        end
+    | EUn Not b => wt_cond te b
+    | _ => wt_pure rty lty te e && ty_eqb (ety rty lty te e) TInt
+    end.
+
+  Fixpoint wt_tern (te : tenv) (e : expr) : bool :=
+    match e with
+    | ETern c l r => wt_cond te c && wt_tern te l && wt_tern te r && ty_eqb (ety rty lty te l) (ety rty lty te r)
+    | _ => wt_pure rty lty te e
+    end.
+End CondTyping.
